@@ -446,3 +446,39 @@ harness16l! {
         core::mem::forget(out);
     }
 }
+
+/// Narrow far lattice for the quick tier: v = ±(6-bit significand) * 2^f, 50 <= f <= 90, so that
+/// |v / L| >= 2^47 .. 2^95 (straddling the 2^53 limit of double-precision quotients).
+fn any_value_far_narrow() -> f64 {
+    let neg: bool = kani::any();
+    let sign = if neg { 1_u64 << 63 } else { 0 };
+    let m: u8 = kani::any();
+    kani::assume(m < 32);
+    let f: u8 = kani::any();
+    kani::assume(f >= 50 && f <= 90);
+    let exp = 1023_u64 + u64::from(f);
+    f64::from_bits(sign | (exp << 52) | (u64::from(m) << 47))
+}
+
+fn any_period_narrow() -> f64 {
+    let m: u8 = kani::any();
+    kani::assume(m < 64);
+    let e: i8 = kani::any();
+    kani::assume(e >= -2 && e <= 2);
+    let exp = (1023_i64 + i64::from(e)) as u64;
+    f64::from_bits((exp << 52) | (u64::from(m) << 46))
+}
+
+harness16l! {
+    // bound: wrap_coord<f64>, D=1, NARROW far lattice: L = (7-bit significand)*2^e, |e|<=2; v = ±(6-bit significand)*2^f, 50<=f<=90: box, identity, congruence with the exact residue
+    #[kani::unwind(13)]
+    fn c16_wrap_coord_far_narrow_1d() {
+        let l = any_period_narrow();
+        let v = any_value_far_narrow();
+        let space = ToroidalSpace::<1>::new([l]);
+        let Some(w) = space.wrap_coord::<f64>(0, v) else { panic!("finite input with a positive finite period was refused") };
+        check_wrap_far(v, l, w);
+        kani::cover!(v < 0.0 && w > 0.0, "a far negative coordinate wraps into the interior");
+        kani::cover!(v > 0.0 && w == 0.0, "a far exact multiple of the period reached");
+    }
+}
